@@ -90,7 +90,7 @@ fn kv_random_access_body(packet: usize, granularity: usize) {
 	std::mem::forget(p);
 }
 
-// @h prop=C09 tier=quick kind=main timeout=900
+// @h prop=C09,C18 tier=quick kind=main timeout=900
 // @bounds packet size 2, seek granularity 2 (seeks land on even frames, at or before the request); 5-frame stream; scheduler in ANY consistent state (decoder position, cached packet present or not); any requested index 0..6
 // @funcs DecodeScheduler::frame_at_index, DecodedChunk::frame_at_index
 // @catches the scheduler trusting the REQUESTED seek index instead of where the decoder actually landed (frames then come out shifted after every backwards seek / loop wrap); cached packet misindexed; wrong frame after skipping forwards
@@ -98,14 +98,14 @@ fn kv_random_access_body(packet: usize, granularity: usize) {
 #[kani::unwind(8)]
 fn c09_scheduler_random_access_packet2_granularity2() { kv_random_access_body(2, 2); }
 
-// @h prop=C09 tier=quick kind=main timeout=900
+// @h prop=C09,C18 tier=quick kind=main timeout=900
 // @bounds packet size 1, seek granularity 3; otherwise as above
 // @funcs DecodeScheduler::frame_at_index
 #[kani::proof]
 #[kani::unwind(8)]
 fn c09_scheduler_random_access_packet1_granularity3() { kv_random_access_body(1, 3); }
 
-// @h prop=C09 tier=thorough kind=main timeout=1750
+// @h prop=C09,C18 tier=thorough kind=main timeout=1750
 // @bounds packet size 3, seek granularity 2
 // @funcs DecodeScheduler::frame_at_index
 #[kani::proof]
